@@ -15,7 +15,7 @@ def run(ctx):
         common.broken_without_input(ctx, "build", ctx.notes[-1] if ctx.notes else "")
         return
     # (stores_for applies the tier's scale itself)
-    stores = generic.stores_for(ctx, {"conforming": 150, "rendered-conforming": 150, "injected": 40, "random": 30})
+    stores = generic.stores_for(ctx, {"conforming": 150, "rendered-conforming": 150, "injected": 40, "random": 30, "loophead": 30})
     sb = [(f, b) for f, b, _ in stores]
     dis, parsed = pipe.diag_compare(ctx, sb)
     graphs = lib.run_impl(ctx, [lib.store_cmd("cfg live -", f, b) for f, b in sb], tag="graphs")
